@@ -3,14 +3,14 @@
 # Exit status is the checker's (1 = mutation detected).
 here="$(cd "$(dirname "$0")/.." && pwd)"
 prop="$1"; mut="$2"
-d="/root/work/mut.$$"
+d="${MUTDIR:-/root/work}/mut.$$"
 "$here/tools/scratch.sh" "$d" || exit 3
 case "$mut" in
   sed:*) f=$(echo "$mut" | cut -d: -f2); e=$(echo "$mut" | cut -d: -f3-); sed -i "$e" "$d/$f" ; (cd "$d" && diff -u /repo/"$f" "$f" | head -20) ;;
   *) (cd "$d" && patch -p1 -s < "$mut") || { rm -rf "$d"; exit 3; } ;;
 esac
 . "$here/env.sh"
-"$here/bin/vsa" -p "$prop" -repo "$d" -evidence none -findings "$here/known_findings.txt"
+"${MUTVSA:-$here/bin/vsa}" -p "$prop" -repo "$d" -evidence none -findings "$here/known_findings.txt"
 rc=$?
 rm -rf "$d"
 exit $rc
